@@ -249,8 +249,9 @@ class Recorder:
             res = machine.send(snd["event"], *snd.get("args", ()), _tok=tok, **snd.get("kwargs", {}))
             if inspect.isawaitable(res):
                 # plain callback on the async engine: documented as "not recommended" (H7)
+                # the event is on the queue already; the coroutine only drives the (busy) processing loop
                 res.close()
-                self.emit("send_return", tok=tok, val="COROUTINE-IN-SYNC-CALLBACK")
+                self.emit("send_return", tok=tok, val=res_repr(None), closed_coroutine=True)
                 return None
         except BaseException as err:
             self.emit("send_return", tok=tok, exc=type(err).__name__, excid=id(err), exc_info=exc_info(err))
